@@ -215,7 +215,18 @@ func findRoute(
 		}
 
 		// Remove selected backend from list to avoid retrying it
+		removed := false
 		for i, backend := range tryBackends {
+			if backend == backendAddr {
+				tryBackends = append(tryBackends[:i], tryBackends[i+1:]...)
+				removed = true
+				break
+			}
+		}
+		for i, backend := range tryBackends {
+			if removed {
+				break
+			}
 			normalizedBackend, err := netutil.Parse(backend, src.RemoteAddr().Network())
 			if err != nil {
 				continue
@@ -236,8 +247,15 @@ func findRoute(
 
 			if normalizedAddr == selectedAddr {
 				tryBackends = append(tryBackends[:i], tryBackends[i+1:]...)
+				removed = true
 				break
 			}
+		}
+		if !removed {
+			// The selected backend could not be matched against the remaining
+			// candidates (e.g. its address does not parse). Make sure this attempt
+			// still terminates instead of selecting it again forever.
+			tryBackends = nil
 		}
 
 		return backendAddr, newLog.WithValues("backendAddr", backendAddr), true
